@@ -342,6 +342,86 @@ func genAPICase(t *rapid.T) *APICase {
 
 var c12 = Register(&Prop[APICase]{ID: "C12", Name: "api-total", Gen: genAPICase, Check: checkAPI})
 
+// ---- accepted programs over a host struct, the Callable then given OTHER values of the very
+// same Go struct type (interface{} fields / untagged pointer fields: one Go type, many yae types):
+// the zero value, the fields holding one another's values, strings / lists / numbers / maps.
+// Whatever the Callable decides, it returns - no panic, no crash of the process.
+
+func checkHostProgramAPI(c *ProgCase) *Outcome {
+	r := refRun(c)
+	if r.RefErr != nil {
+		return skip("harness:reference-rejects-generated-program")
+	}
+	if !run.HostableEnv(c.Env) || hasFunEnv(c) {
+		return skip("env-not-hostable")
+	}
+	vals := conformAll(c.Vals)
+	forms := 0
+	for _, form := range []string{"dyn", "ptr"} {
+		var host interface{}
+		var okh bool
+		if form == "dyn" {
+			host, okh = run.EnvStructDyn(vals)
+		} else {
+			host, okh = run.EnvStructPtr(vals)
+		}
+		if !okh {
+			continue
+		}
+		forms++
+		for _, closureBE := range []bool{false, true} {
+			e := yae.NewExpr()
+			if closureBE {
+				e.UseClosureCompiler()
+			}
+			var callable yae.Callable
+			var cerr error
+			if p := run.Guard(func() { callable, cerr = e.Compile(r.Src, host) }); p != nil {
+				return bad("Compile panicked instead of returning an error: %s\n src: %s\n env: %s", p.Text, r.Src, envSummary(c))
+			}
+			if cerr != nil {
+				continue // harness functions etc.: not this class's subject
+			}
+			others := append([]interface{}{host}, sameGoTypeVariants(host)...)
+			// the fields holding one another's values
+			rv := reflect.ValueOf(host)
+			for shift := 1; shift < rv.NumField() && shift <= 2; shift++ {
+				cp := reflect.New(rv.Type()).Elem()
+				okc := true
+				for i := 0; i < rv.NumField(); i++ {
+					src := rv.Field((i + shift) % rv.NumField())
+					if !src.Type().AssignableTo(cp.Field(i).Type()) {
+						okc = false
+						break
+					}
+					cp.Field(i).Set(src)
+				}
+				if okc {
+					others = append(others, cp.Interface())
+				}
+			}
+			for _, other := range others {
+				var rvv *val.Val
+				var rerr error
+				p, slow := timed("Callable", func() { rvv, rerr = callable(other) })
+				if p != nil {
+					return bad("the Callable panicked instead of returning an error: %s (run-time env %#v)\n src: %s\n env: %s", p.Text, other, r.Src, envSummary(c))
+				}
+				if slow != nil {
+					return bad("not prompt: %v\n src: %s", slow, r.Src)
+				}
+				if rerr == nil && rvv == nil {
+					return bad("the Callable returned neither a value nor an error\n src: %s", r.Src)
+				}
+			}
+		}
+	}
+	return ok(forms > 0 && len(c.Env) > 0, "host-struct-programs")
+}
+
+var c12hostOpt = gen.ProgOpt{Fuel: 3, Partial: true, Sugar: true, Maybe: false, Times: true, HostEnv: true}
+var c12host = Register(&Prop[ProgCase]{ID: "C12", Name: "api-total-same-go-type", Gen: genProgCase(c12hostOpt, nil), Check: checkHostProgramAPI})
+
 // ---- scaling: compile cost against nesting depth
 
 type ScaleCase struct {
@@ -664,7 +744,7 @@ var evalScaleCases = []*EvalScaleCase{
 }
 
 func TestC12(t *testing.T) {
-	R.Rule = "source strings up to 256 bytes (quick) / 4 KiB (thorough): random bytes, random runes, token soup from the lexicon, grammar-aware edits (insert / delete / duplicate / swap) of valid programs taken from a seed list and from the program generator, bracket nests to depth 12, valid programs; environments: none, Go host values built by reflection (structs, maps, slices, pointers, interface parts, nil parts, unsupported kinds), or one of the fixed hostile host values (cyclic maps / slices / struct rings, self-referential pointers, recursive Go types with nil links, nesting beyond conv's limit, typed nils, unsupported kinds), also as run-time environment of a Callable compiled against something else; accepted sources are also passed to Debug and Eval with blanks / line breaks before and after them; every call of Eval, Compile (two back ends), the Callable (same environment, a mismatching map, nil, a number, an unsupported struct, values of the very same Go struct type that have another yae type: the zero value, interface{} fields holding a string / list / number / map) and Debug must return without panicking, with a value or an error, within 5 s (a slower call is repeated three times and reported only if slow every time; a call that does not return within 180 s aborts the run as a violation); scaling class: compile time against repetition count 2..60 for 45 nest, chain and prefix shapes must not grow by more than 2.5x per two levels over four consecutive steps from depth 12 on (or 1.7x over five steps from depth 30 on); eval-scaling class: 69 closed accepted shapes (nested / chained conditionals, short-circuit operators, user lazy functions, defaults, strict and host calls, literals, selectors, nests in the index / key operand of selectors, method notation) compiled and evaluated on each of the four back ends at repetition counts 2..60, compile time (whole pipeline) and evaluation time under the same growth rule; capacity class: sources of 60-100 KB at the VM's encoding limits (conditionals whose code crosses the 16-bit jump range; thorough: further wide / deep shapes) compiled and invoked twice through the public API on both facade back ends; non-trivial = input accepted, or rejected with more than one token"
+	R.Rule = "source strings up to 256 bytes (quick) / 4 KiB (thorough): random bytes, random runes, token soup from the lexicon, grammar-aware edits (insert / delete / duplicate / swap) of valid programs taken from a seed list and from the program generator, bracket nests to depth 12, valid programs; environments: none, Go host values built by reflection (structs, maps, slices, pointers, interface parts, nil parts, unsupported kinds), or one of the fixed hostile host values (cyclic maps / slices / struct rings, self-referential pointers, recursive Go types with nil links, nesting beyond conv's limit, typed nils, unsupported kinds), also as run-time environment of a Callable compiled against something else; accepted generated programs over a host struct of interface{} fields or untagged pointer fields, the Callable then invoked with other values of the very same Go type (zero value, fields holding one another's values, strings / lists / numbers / maps); accepted sources are also passed to Debug and Eval with blanks / line breaks before and after them; every call of Eval, Compile (two back ends), the Callable (same environment, a mismatching map, nil, a number, an unsupported struct, values of the very same Go struct type that have another yae type: the zero value, interface{} fields holding a string / list / number / map) and Debug must return without panicking, with a value or an error, within 5 s (a slower call is repeated three times and reported only if slow every time; a call that does not return within 180 s aborts the run as a violation); scaling class: compile time against repetition count 2..60 for 45 nest, chain and prefix shapes must not grow by more than 2.5x per two levels over four consecutive steps from depth 12 on (or 1.7x over five steps from depth 30 on); eval-scaling class: 69 closed accepted shapes (nested / chained conditionals, short-circuit operators, user lazy functions, defaults, strict and host calls, literals, selectors, nests in the index / key operand of selectors, method notation) compiled and evaluated on each of the four back ends at repetition counts 2..60, compile time (whole pipeline) and evaluation time under the same growth rule; capacity class: sources of 60-100 KB at the VM's encoding limits (conditionals whose code crosses the 16-bit jump range; thorough: further wide / deep shapes) compiled and invoked twice through the public API on both facade back ends; non-trivial = input accepted, or rejected with more than one token"
 	R.Assume = []string{"termination is only observed under the stated budgets; Go stack exhaustion by inputs beyond 4 KiB is not probed"}
 	reportKnown(t, "C12")
 	runRegress(t, "C12")
@@ -699,4 +779,5 @@ func TestC12(t *testing.T) {
 		}
 	})
 	c12.Run(t, budget(12000, 800000))
+	c12host.Run(t, budget(2000, 100000))
 }
